@@ -633,7 +633,7 @@ def expand(case, x_depth, resolver=None):
     d = case["draft"]
     idkw = impl.IDKW[d]
     resolver = resolver or oracle_resolver(case)
-    budget = [20000]
+    budget = [4000]
 
     def ex(s, base, remaining, hops, position):
         budget[0] -= 1
@@ -658,7 +658,9 @@ def expand(case, x_depth, resolver=None):
         for k, v in s.items():
             if k == idkw:
                 continue
-            out[k] = copy.deepcopy(v)
+            # containers of subschemas are replaced member by member below: a shallow copy is all that is needed
+            # (deep copies of every `definitions` at every level made large expansions take minutes)
+            out[k] = copy.copy(v) if isinstance(v, (dict, list)) and k != "definitions" else v
         for path, sub in list(walk.children(d, s)):
             kw = path[0]
             if kw == "definitions":
